@@ -49,7 +49,13 @@ package ship
 //@ func (c *ShipConnection).protocolHandshake() inline
 
 // ---- library-like helpers (reflection based): contract assumed, listed as trusted ----
-//@ func JsonFromEEBUSJson(json) trusted pure
+// JsonFromEEBUSJson handles peer-controlled bytes: its body is under the safety sweep (C08); what it computes is a
+// deterministic function of the input as far as its callers are concerned (content fidelity: C07, bounded)
+//@ lib bytes.ReplaceAll(s, old, new) pure
+//@ lib bytes.Trim(s, cutset) pure
+//@ lib bytes.TrimRight(s, cutset) pure
+//@ lib bytes.TrimSuffix(s, suffix) pure
+//@ func JsonFromEEBUSJson(json) pure [C08]
 //@ func JsonIntoEEBUSJson(data) trusted pure
 
 //@ func (c *ShipConnection).parseMessage(msg, jsonFormat) pure [C07,C06]
@@ -626,7 +632,7 @@ package ship
 //@   ensures c.$closeScheduled == old(c.$closeScheduled)
 //@   ensures [C11] F1-step: @F1STEP(c)
 //@   atcall WriteMessageToWebsocketConnection [C06] S1-frame: len($0) >= 1 && $0[0] == model.MsgTypeData
-//@   atcall WriteMessageToWebsocketConnection [C06] S2-fresh: fresh($0)
+//@   atcall WriteMessageToWebsocketConnection [C06,C12] S2-fresh: fresh($0)
 //@   modifies @cl(c)
 //@ func (c *ShipConnection).WriteShipMessageWithPayload(message) entry [C06,C08]
 //@   requires c.smeState == model.SmeStateComplete
